@@ -29,7 +29,7 @@ pub fn run(ctx: &Ctx) -> Value {
     let mut stamps: Vec<i128> = vec![0, 1, -1, NS, -NS, 1_500_000_000, -1_500_000_000, 1_499_999_999, -1_499_999_999, 43_200 * NS, -43_200 * NS, 43_200 * NS - 1,
         i64max, i64max - 1, i64max + 1, -i64max - 1, -i64max, -i64max - 2, i64max / 2, -(i64max / 2), 1_700_000_000 * NS + 123_456_789];
     for &s in &spans { if s > 0 { for k in [-3i128, -1, 0, 1, 2] { for d in [-1i128, 0, 1] { let h = s / 2; stamps.push(k * s + d); stamps.push(k * s + h + d); } } } }
-    for _ in 0..ctx.t(200, 30_000) { stamps.push(match rng.below(3) { 0 => rng.next() as i64 as i128, 1 => rng.loguniform(62) as i128, _ => (rng.next() as i128 % (4 * i64max)) - 2 * i64max }); }
+    for _ in 0..ctx.t(500, 30_000) { stamps.push(match rng.below(3) { 0 => rng.next() as i64 as i128, 1 => rng.loguniform(62) as i128, _ => (rng.next() as i128 % (4 * i64max)) - 2 * i64max }); }
     stamps.push(crate::w::c02::min_ns()); stamps.push(crate::w::c02::max_ns());
     for (i, &st) in stamps.iter().enumerate() {
         let x = match from_ns(st) { Some(x) => x, None => continue };
